@@ -2137,6 +2137,30 @@ theorem exact_opt (A B : Expr) (t : Tree) :
     have : ¬ ∀ r ∈ evalE se t A true, ¬ Full r := fun h => h1 (hfull.2 h)
     simp [this]
 
+/-- **`{A: B}` is `{A:} || {A && B:}`** whenever every exact result of `A` that accounts for all children of
+its group sits on a liftable group (always so when `A` is made of terms: a full result on the string itself
+leaves no other group).  Without the hypothesis the early return of `ExpressionExactMatch.handle_expr`
+(`if filtered_list: return ...`) can hide the optional branch: `exact_optional_counterexample`. -/
+theorem exact_optional_equiv (A B : Expr) (t : Tree)
+    (h : ∀ r ∈ evalE se t A true, Full r → Liftable r) :
+    isMatchWith se (.exactOpt A B) t = isMatchWith se (.or (.exactNone A) (.exactNone (.and A B))) t := by
+  rw [Bool.eq_iff_iff, exact_opt, or_iff, exact_none, exact_none, evalE_and]
+  constructor
+  · rintro (h1 | ⟨_, h2⟩)
+    · exact Or.inl h1
+    · exact Or.inr h2
+  · rintro (h1 | h2)
+    · exact Or.inl h1
+    · by_cases hn : ∀ r ∈ evalE se t A true, ¬ Full r
+      · exact Or.inr ⟨hn, h2⟩
+      · left
+        have : ∃ r ∈ evalE se t A true, Full r := by
+          apply Classical.byContradiction
+          intro hc
+          exact hn (fun r hr hf => hc ⟨r, hr, hf⟩)
+        rcases this with ⟨r, hr, hf⟩
+        exact ⟨r, hr, hf, h r hr hf⟩
+
 /-- **Wildcards**: `?` / `??` / `???` match iff some group (the string included) has a child / a tag child / a
 group child. -/
 theorem wildcard (w : Wild) (t : Tree) :
@@ -2345,5 +2369,16 @@ theorem legacy_sibling_order_counterexample :
   exact ⟨_, _, shuf_refl _, shufL_refl _, List.Perm.swap _ _ _⟩
 
 example : UniqueIds demoTree := by unfold UniqueIds; decide
+
+/-- the hypothesis of `exact_optional_equiv` is needed: on `(A,B)` the required part `??? || a` is fully
+satisfied by the string itself (its only child is a group), so `{??? || a: b}` returns the (unliftable) string
+and does not match, while `{(??? || a) && b:}` matches the group.  (Same on the real code:
+`{??? || red: blue}` vs `{??? || red:} || {(??? || red) && blue:}` on `(Red,Blue)`.) -/
+theorem exact_optional_counterexample :
+    let A : Expr := .or (.wild .groups) (.term ['a'] .terms false)
+    let B : Expr := .term ['b'] .terms false
+    let t : Tree := ⟨0, [.group 1 true [tagN 2 'a', tagN 3 'b']]⟩
+    isMatch (.exactOpt A B) t = false ∧ isMatch (.or (.exactNone A) (.exactNone (.and A B))) t = true := by
+  decide
 
 end HedVerif.C15
